@@ -51,11 +51,7 @@ struct Builder {
 #endif
     }
     int hex(const std::array<int, 8> &v) {
-#if defined(MC_HEX)
-        std::vector<VertexHandle> vs;
-        for (int x : v) vs.push_back(VertexHandle(x));
-        return m.add_cell(vs, false).idx();
-#elif defined(MC_TET)
+#if defined(MC_TET)
         return -1;
 #else
         return C({HF({v[3], v[2], v[1], v[0]}), HF({v[7], v[6], v[5], v[4]}), HF({v[1], v[2], v[6], v[7]}),
